@@ -36,6 +36,9 @@ CLAIMED = {
  "C10": ("proptest: generated edit histories vs. fresh-parse reference + independent raw tree-sitter incremental chain (differential), shrinking to replay files",
          "Randomised exploration: thousands of generated edit histories per run over all 23 languages; after every step the document text must equal the O-splice model and, when the text parses error-free, the tree must equal a fresh parse (a divergence that an independent, correctly driven tree-sitter incremental chain reproduces exactly is the listed tree-sitter known finding). No absence claim.",
          "Trusted: tree-sitter's fresh parse as reference; the harness's own InputEdit chain; the property is only asserted at error-free steps.", "DESIGN.md §5 C10"),
+ "C11": ("proptest structured/mutational YAML generators with every case executed in a child process (panic, abort, stack overflow and hang attributed to one case, shrunk by proptest) + coverage-guided libFuzzer target over the same decoder in the thorough tier; oracle = load returns Ok/Err and accepted rules scan without panic",
+         "Randomised + coverage-guided exploration: 5x10^3 (quick) to 1.5x10^5 (thorough) documents from structured adversarial generators (all rule keys, extreme numbers, invalid regexes, deep nesting, 10 cycle shapes), seed mutation and raw bytes, each loaded and, when accepted, scanned over 7 sources in both scan modes with messages and fixes generated; ~5% through the real CLI with a watchdog; thorough adds a libFuzzer campaign. Absence of crashes is not established.",
+         "Trusted: the OS reports crashes of the child faithfully; a hang is only reported after three attempts; fuzzing never proves absence.", "DESIGN.md §5 C11"),
  "C12": ("proptest: rule documents assembled from valid parts with one generated perturbation; oracle = independent static analysis of the document model (accept => consistent) + O-template/reference transforms for accepted documents; cyclic documents loaded in a child process",
          "Randomised exploration: 10^4 (quick) to 3x10^5 (thorough) documents over 8 perturbation classes (undefined variable in fix / transform / constraints, unresolved matches / rewriter, cyclic transforms, same-node utility cycles through 9 operator shapes, no kind-determining key); every violating document must be rejected, every accepted document must expand each fix variable (string and object form, transformed variables) to the reference value and match only kinds of its kind set.",
          "Trusted: regex crate for `replace`; the construction of the pattern for the reference bindings (C02); only accept => consistent is claimed.", "DESIGN.md §5 C12"),
